@@ -1,8 +1,7 @@
 #!/bin/sh
 # Offline setup: nothing to build; verify the tools the checks need are present.
-set -e
-cd "$(dirname "$0")"
-java -cp /opt/veriftools/tla/tla2tools.jar:/opt/veriftools/tla/CommunityModules-deps.jar tlc2.TLC -h >/dev/null 2>&1 || { echo "TLC not runnable"; exit 1; }
+cd "$(dirname "$0")" || exit 1
+java -cp /opt/veriftools/tla/tla2tools.jar:/opt/veriftools/tla/CommunityModules-deps.jar tla2sany.SANY spec/fe/ServerSM.tla >/dev/null 2>&1 || { echo "SANY/TLC not runnable"; exit 1; }
 /venv/bin/python -c "import websockets, cryptography" || { echo "repo venv incomplete"; exit 1; }
 mkdir -p evidence replays
 echo "setup ok"
